@@ -280,7 +280,7 @@ def c07_fuzz(n, seed, procs):
     functions, composite triplets = weighted sums of term triplets, stationary points have zero gradient"""
     from PEPit import PEP, Point
     from PEPit.functions import ConvexFunction, SmoothConvexFunction
-    fails, samples, distinct = [], [], set()
+    fails, samples, distinct, known_fails = [], [], set(), []
     def key(x): return tuple(sorted(pdict(x).items()))
     def addd(a, b, w):
         out = dict(a)
@@ -315,7 +315,7 @@ def c07_fuzz(n, seed, procs):
             else:
                 f = rnd.choice(funcs); x, _, _ = f.fixed_point(); pts.append(x); log.append("fixed f%d" % funcs.index(f))
         distinct.add(tuple(log))
-        errs = []
+        errs = []; zero_fails = []
         for fi, f in enumerate(funcs):
             seen = {}
             for (x, g, v) in f.list_of_points:
@@ -329,7 +329,13 @@ def c07_fuzz(n, seed, procs):
                 if pdict(g): errs.append("stationary point of f%d with non-zero gradient" % fi)
             if f.get_is_leaf(): continue
             dec = {t: Fr(w) for t, w in f.decomposition_dict.items() if w != 0}
-            if not dec: continue      # the zero function: fixed_point() on it asks for g = x, which no sum of no terms provides
+            if not dec:
+                # the zero function: the weighted sum of no samples is (0, 0); stationary_point() / fixed_point() record a free
+                # value leaf (and g = x) instead: known finding KF-C07-zero-function-point
+                for (x, g, v) in f.list_of_points:
+                    if pdict(g) or edict(v):
+                        zero_fails.append("triplet recorded on the zero function f%d is not the (empty) sum of its terms' triplets" % fi); break
+                continue
             for (x, g, v) in f.list_of_points:
                 cands = [(w, [(pdict(gg), edict(vv)) for (xx, gg, vv) in t.list_of_points if key(xx) == key(x)]) for t, w in dec.items()]
                 if any(len(c) == 0 for _, c in cands): errs.append("term of composite f%d not evaluated at a recorded point" % fi); continue
@@ -342,12 +348,25 @@ def c07_fuzz(n, seed, procs):
                 if not ok: errs.append("triplet of composite f%d is not the weighted sum of its terms' triplets" % fi)
         for e in errs[:1]:
             fails.append(dict(what=e, oracle="c07_fuzz", input=dict(seed=seed, it=it, calls=log), tags=["c07"]))
+        if not errs and not known_fails:
+            for e in zero_fails[:1]:
+                known_fails.append(dict(what=e, oracle="c07_fuzz", input=dict(seed=seed, it=it, calls=log), tags=["c07", "c07-zero-function-point"]))
         if it < 2: samples.append(log)
         if len(fails) > 5: break
-    return dict(evaluations=n, distinct=len(distinct), failures=fails[:5], samples=samples)
+    return dict(evaluations=n, distinct=len(distinct), failures=fails[:5] + known_fails[:1], samples=samples)
 
 
 # ------------------------------------------------------------------ dispatcher
+def _unknown_first(fails):
+    """failures that carry the tag of an open known finding go last, so that they never crowd out a new one"""
+    try:
+        kf = json.load(open(os.path.join(os.path.dirname(os.path.dirname(os.path.abspath(__file__))), "KNOWN_FINDINGS.json")))
+        tags = {f.get("tag") for f in kf.get("findings", []) if f.get("status", "open") == "open"}
+    except Exception:
+        tags = set()
+    return sorted(fails, key=lambda f: bool(tags & set(f.get("tags", []))))
+
+
 def run_parallel(fn_name, n, seed, procs):
     """split an oracle over processes (each interpreter has its own PEPit class state)"""
     procs = max(1, min(procs, n // 20 or 1))
@@ -368,7 +387,7 @@ def run_parallel(fn_name, n, seed, procs):
                 for k in d:
                     if k not in agg: agg[k] = d[k]
         if not got: agg["crashed"] = (out + err)[-1500:]
-    agg["failures"] = agg["failures"][:5]
+    agg["failures"] = _unknown_first(agg["failures"])[:5]
     return agg
 
 
